@@ -138,6 +138,26 @@ def search(ctx, broken, disagreements):
                     if v and len(found) < 6:
                         found.append({'law': v[0], 'input': {'doc': H + body + '</svg>', 'ndigits': 3, 'allow_text': at, 'drop_unsupported': drop, 'cli': cli},
                                       'expected_by_spec': jsonable(v[1]), 'observed': jsonable(v[2])})
+    # numbers Python prints in exponent form (no run of decimals to look at), and even-odd paths whose geometry Skia's simplify
+    # gives up on: the first must still be rounded, the second must not come back carrying fill-rule="evenodd"
+    HH = '<svg xmlns="http://www.w3.org/2000/svg" viewBox="0 0 100 100">'
+    TRICKY = ["M23.2,38 C4.689,10 96.888,79 16,88.1 L18.415,27.1 Z",
+              "M95.452,32 Q59,68.438 38.3,56 Q87,47.5 28,52.2 C21,76.6 2.174,35 89.997,10 L3.1,74.17 Z",
+              "M55,58.3 C90,74 35.391,1 8.85,10.7 C8.972,77 72,8.587 23.3,75 L62,58.782 C64.239,49.629 33,67.776 43.622,60 Q10,31.9 23.927,47.4 Z"]
+    special = [HH + '<path d="M1e-5,0 L10,2.5e-5 L10,10 L-3e-6,10 Z"/></svg>',
+               HH + '<path fill="red" d="M0,0 L20,1.5e-5 L20,20 Q1.25e-6,20 0,10 Z"/></svg>',
+               HH + '<path d="M0,0 L10,0 L10,10 Z" opacity="5e-1"/><path d="M1e-7,1e-7 L4,0 L4,4 Z"/></svg>']
+    special += [HH + f'<path fill-rule="evenodd" d="{d}"/></svg>' for d in TRICKY]
+    special += [HH + f'<g fill-rule="evenodd" fill="blue"><path d="{TRICKY[0]}"/><path d="M1,1 L5,1 L5,5 Z"/></g></svg>',
+                HH + f'<path style="fill-rule:evenodd" d="{TRICKY[1]}"/><image width="1" height="1"/></svg>']
+    for doc in special:
+        for nd in (3, 5):
+            for drop in (False, True):
+                n += 1
+                v = judge(doc, nd, False, drop, False)
+                if v and len(found) < 6:
+                    found.append({'law': v[0], 'input': {'doc': doc, 'ndigits': nd, 'allow_text': False, 'drop_unsupported': drop, 'cli': False},
+                                  'expected_by_spec': jsonable(v[1]), 'observed': jsonable(v[2])})
     # more gradients of one kind than one digit can index (paths like /svg[0]/defs[0]/linearGradient[11])
     many = H + '<defs>' + ''.join(f'<linearGradient id="lg{j}"><stop offset="0" stop-color="red"/><stop offset="1" stop-color="blue"/></linearGradient>'
                                   f'<radialGradient id="rg{j}"><stop offset="0" stop-color="red"/><stop offset="1" stop-color="blue"/></radialGradient>' for j in range(12)) + '</defs>' + \
